@@ -491,9 +491,20 @@ def check(ctx):
                 if body is None:
                     forms[owner] = "<no arm>"
                     continue
-                fmts = sorted(set(lit_str(x["args"][0]) for x in walk(body) if x.get("k") == "macro" and x["name"] == "format" and x.get("args") and lit_str(x["args"][0])))
-                joins = sorted(set(lit_str(x["args"][0]) for x in walk(body) if x.get("k") == "mcall" and x["method"] == "join" and x["args"] and lit_str(x["args"][0])))
-                forms[owner] = "fmt=%s join=%s" % (fmts, joins)
+                # the punctuation a renderer can emit for this constructor, however it is assembled (format!, join, push_str/push): the literal text of
+                # the arm with placeholders and words removed
+                chars = set()
+                for x in walk(body):
+                    t_ = None
+                    if x.get("k") == "lit" and x["lit"].get("t") in ("str", "char"):
+                        t_ = str(x["lit"]["v"])
+                    if t_ is None:
+                        continue
+                    t_ = re.sub(r"\{[^{}]*\}", "", t_)
+                    if re.fullmatch(r"[A-Za-z_ ]+", t_):
+                        continue            # a word ("unknown"): not structure
+                    chars |= {ch for ch in t_ if not ch.isalnum() and ch != "_"}
+                forms[owner] = "punctuation=%s" % "".join(sorted(chars))
             if len(set(forms.values())) == 1:
                 r6.ok("type_to_string agrees on Type::%s: %s" % (variant, list(forms.values())[0]))
             else:
